@@ -2749,6 +2749,11 @@ impl Formatter {
         return format!("[]");
       }
     }
+    if !self.html {
+      // Source text is row-major: the elements of a row are separated by spaces, rows by semicolons.
+      let rows = node.rows.iter().map(|row| self.matrix_row(row)).collect::<Vec<String>>().join("; ");
+      return format!("[{}]", rows);
+    }
     let column_count = node.rows[0].columns.len(); // Assume all rows have the same number of columns
 
     for col_index in 0..column_count {
